@@ -31,7 +31,7 @@ FAULTS = ["dup_label", "undef_label_operand", "undef_label_push", "undef_label_m
           "dup_macro", "div_zero_const", "div_zero_label", "too_large", "negative", "dup_local_label",
           "undef_variable", "imacro_as_expr", "recursive_imacro", "recursive_emacro", "unbound_var_nested", "missing_arg_nested",
           "undef_label_surplus_arg", "undef_emacro_surplus_arg", "undef_label_nested_arg", "undef_label_surplus_in_imacro_arg",
-          "undef_label_surplus_in_push"]
+          "undef_label_surplus_in_push", "too_large_push", "too_large_push_in_macro", "negative_push"]
 
 
 def inject(rng, prog, fault):
@@ -127,6 +127,17 @@ def inject(rng, prog, fault):
     elif fault == "undef_label_surplus_in_push":
         p.insert(pos, ("push", ("macro", "twice", [("lbl", "end"), ("lbl", "nowhere")])))
         exp = ("UndeclaredLabels", "nowhere")
+    elif fault == "too_large_push":
+        p.insert(pos, ("push", G.climb([("lbl", "end"), "+", ("num", 2 ** 256)])))
+        exp = ("ExpressionTooLarge", None)
+    elif fault == "too_large_push_in_macro":
+        p.insert(0, ("defi", "bigm", ["x"], [("push", G.climb([("var", "x"), "*", ("num", 2 ** 256)]))]))
+        p.insert(max(pos, 1), ("macro", "bigm", [("lbl", "end")]))
+        exp = ("ExpressionTooLarge", None)
+    elif fault == "negative_push":
+        p.insert(pos, ("push", G.climb([("lbl", "zero"), "-", ("num", 1)])))
+        p.insert(0, ("label", "zero"))
+        exp = ("ExpressionNegative", None)
     elif fault == "recursive_emacro":
         p.insert(0, ("defe", "loope", [], ("macro", "loope", [])))
         p.insert(max(pos, 1), ("op", "push1", ("macro", "loope", [])))
